@@ -1,7 +1,7 @@
 (* C14 - Chunk-size, repeat and time-limit options are honoured (minimize). *)
 From Coq Require Import ZArith NArith List Bool.
 From Lithium Require Import PyBase TcRecord Util Testcase Spec Driver TraceSpec Minimize StratSpec
-  MinimizeProofs Pairs PairsDeadline.
+  MinimizeProofs Pairs PairsDeadline Cli CliValidation.
 Import ListNotations.
 Open Scope Z_scope.
 
@@ -97,7 +97,31 @@ Theorem C14_pairs_deadline_constant :
     pnext kind cfg clk s best = Propose t k -> p_deadline (k o) = p_deadline s /\ (p_reads s <= p_reads (k o))%nat.
 Proof. exact pairs_deadline_constant. Qed.
 
+(* start-up validation (Minimize.process_args as modelled in Cli.v, pinned to the source text): accepted
+   settings have power-of-two min and max, --chunk-size n means min = max = n with repeat never; anything
+   else is refused *)
+Theorem C14_validation_accepts :
+  forall c c', finish_minimize c = Ok c' ->
+    pow2 (cf_min c') /\ pow2 (cf_max c') /\
+    match cf_chunk c with
+    | Some n => cf_min c' = n /\ cf_max c' = n /\ cf_repeat c' = RNever
+    | None => cf_min c' = cf_min c /\ cf_max c' = cf_max c /\ cf_repeat c' = cf_repeat c
+    end /\
+    cf_limit c' = cf_limit c.
+Proof. exact finish_minimize_spec. Qed.
+
+Theorem C14_validation_refuses :
+  forall c,
+    (match cf_chunk c with
+     | Some n => ~ pow2 n
+     | None => ~ pow2 (cf_min c) \/ ~ pow2 (cf_max c)
+     end) ->
+    exists e, finish_minimize c = Err e.
+Proof. exact finish_minimize_refuses. Qed.
+
 Print Assumptions C14_is_power_of_two.
+Print Assumptions C14_validation_accepts.
+Print Assumptions C14_validation_refuses.
 Print Assumptions C14_pairs_deadline.
 Print Assumptions C14_pairs_deadline_start.
 Print Assumptions C14_pairs_deadline_constant.
